@@ -19,10 +19,15 @@ theorem deliver_cl (E : Env) (rs : List Bytes) : ∀ s, (deliver E s rs).cl = s.
     intro s
     simp only [deliver, ih]
     unfold deliver1
-    split <;> rfl
+    split
+    · split <;> rfl
+    · split <;> rfl
+
+@[simp] theorem fail_cl (s : Sys) (e : Canopen.Sdo.CErr) : (fail s e).cl = s.cl := rfl
 
 @[simp] theorem sendReq_cl (E : Env) (s : Sys) (f : Bytes) : (sendReq E s f).cl = s.cl := by
-  simp [sendReq, deliver_cl]
+  unfold sendReq
+  split <;> simp [deliver_cl]
 
 @[simp] theorem abort_cl (E : Env) (s : Sys) (c : Nat) : (abort E s c).cl = s.cl := by simp [abort]
 
@@ -42,7 +47,7 @@ theorem rrLoop_cl (E : Env) (req : Bytes) : ∀ k s, (rrLoop E k s req).1.cl = s
     cases r with
     | timeout => simp only; split <;> simp_all
     | resp f => simpa using h
-    | aborted => simpa using h
+    | aborted code => simpa using h
 
 /-- the part of the client state the CRC guard is about -/
 structure SameCrc (s s' : Sys) : Prop where
@@ -70,7 +75,11 @@ theorem retransmit_same (E : Env) (s : Sys) : SameCrc s (retransmit E s).1 := by
   have h := ackBlock_same E s
   unfold retransmit
   simp only
-  split <;> exact ⟨h.crc, h.sup, h.done, h.scrc⟩
+  split
+  · exact ⟨h.crc, h.sup, h.done, h.scrc⟩
+  · exact ⟨by simpa [setError] using h.crc, by simpa [setError] using h.sup, by simpa [setError] using h.done,
+      by simpa [setError] using h.scrc⟩
+  · exact ⟨h.crc, h.sup, h.done, h.scrc⟩
 
 theorem seqCheck_same (E : Env) (s : Sys) (r : Bytes) : SameCrc s (seqCheck E s r).1 := by
   unfold seqCheck
@@ -98,8 +107,8 @@ theorem endUpload_spec (E : Env) (s : Sys) :
     split
     · simp [setError, h]
     · split <;> simp [setError, h]
-  | timeout => simp only at h ⊢; rw [h]; exact ⟨rfl, rfl, rfl⟩
-  | aborted => simp only at h ⊢; rw [h]; exact ⟨rfl, rfl, rfl⟩
+  | timeout => simp only at h ⊢; simp [setError, h]
+  | aborted code => simp only at h ⊢; simp [h]
 
 theorem finishLast_spec (E : Env) (s : Sys) (data d : Bytes) (s' : Sys)
     (h : finishLast E s data = (s', some d)) :
